@@ -40,6 +40,7 @@ Theorem centroid1_is_centroid (pidx : Z) (fd : list spotR) c :
             (sx s <> [] -> sy s <> [] -> is_centroid (sx s) (sy s) c).
 Proof.
   unfold M_C12.centroid1. destruct (nthZ fd pidx) as [s|]; [|discriminate].
+  rewrite !nanmean_R.
   intros H; injection H as <-. exists s. split; [reflexivity|]. split; [reflexivity|].
   intros Hx Hy. split; cbn [fst snd]; apply first_moment_mean; assumption.
 Qed.
@@ -55,14 +56,77 @@ Proof.
   rewrite Nat2Z.id. rewrite nth_error_map, H. reflexivity.
 Qed.
 
-(** the reference of the spot diagram is the spot of the primary wavelength PROVIDED the list of
-    wavelengths the diagram was built for holds the primary wavelength at the lens's primary index *)
-Theorem centroid_primary {W} (ws : list W) (trace : W -> spotR) (wp : W) (pidx : nat) :
-  nth_error ws pidx = Some wp ->
-  centroid1 (Z.of_nat pidx) (map trace ws) = Some (mean_ (sx (trace wp)), mean_ (sy (trace wp))).
-Proof. intros H. unfold M_C12.centroid1. rewrite (nthZ_map_nat trace ws pidx wp H). reflexivity. Qed.
+(** *** the reference wavelength rule (SpotDiagram._reference_index) *)
+Lemma find_wave_some (ws : list R) wref k :
+  find_wave (O := ROps) ws wref = Some k -> nth_error ws k = Some wref.
+Proof.
+  revert k; induction ws as [|w ws IH]; intros k H; cbn in H; [discriminate|].
+  unfold Reqb in H. destruct (Req_EM_T w wref) as [->|N].
+  - injection H as <-. reflexivity.
+  - destruct (find_wave (O := ROps) ws wref) as [j|] eqn:E; [|discriminate].
+    injection H as <-. cbn. apply IH. reflexivity.
+Qed.
 
-(** without that hypothesis the lookup fails (IndexError) as soon as the explicit list is too short *)
+Lemma find_wave_none (ws : list R) wref :
+  find_wave (O := ROps) ws wref = None <-> ~ In wref ws.
+Proof.
+  induction ws as [|w ws IH]; cbn; [tauto|].
+  unfold Reqb. destruct (Req_EM_T w wref) as [->|N].
+  - split; [discriminate|]. intros H; exfalso; apply H; left; reflexivity.
+  - destruct (find_wave (O := ROps) ws wref) as [j|] eqn:E; cbn.
+    + split; [discriminate|]. intros H. exfalso.
+      assert (Hn : ~ In wref ws) by (intros Hi; apply H; right; exact Hi).
+      apply (proj2 IH) in Hn. discriminate.
+    + split; [|reflexivity]. intros _ [Hw|Hi]; [contradiction|]. apply (proj1 IH); [reflexivity|exact Hi].
+Qed.
+
+(** the primary wavelength is listed: the reference index points at it *)
+Theorem reference_index_primary (ws : list R) (wp : R) :
+  In wp ws -> nth_error ws (reference_index (O := ROps) ws wp) = Some wp.
+Proof.
+  intros Hin. unfold reference_index.
+  destruct (find_wave (O := ROps) ws wp) as [k|] eqn:E; [apply find_wave_some; exact E|].
+  apply find_wave_none in E. contradiction.
+Qed.
+
+(** it is not listed: the first listed wavelength is the reference *)
+Theorem reference_index_absent (ws : list R) (wp : R) :
+  ~ In wp ws -> reference_index (O := ROps) ws wp = 0%nat.
+Proof. intros H. unfold reference_index. apply find_wave_none in H. rewrite H. reflexivity. Qed.
+
+Lemma centroid1_at (ws : list R) (trace : R -> spotR) (w : R) (k : nat) :
+  nth_error ws k = Some w ->
+  centroid1 (Z.of_nat k) (map trace ws) = Some (mean_ (O := ROps) (sx (trace w)), mean_ (O := ROps) (sy (trace w))).
+Proof. intros H. unfold M_C12.centroid1. rewrite (nthZ_map_nat trace ws k w H), !nanmean_R. reflexivity. Qed.
+
+(** the reference of a diagram built for ANY explicit wavelength list that contains the lens's primary wavelength is
+    the centroid of the primary-wavelength spot, wherever the primary sits in the list (no hypothesis on indices) *)
+Theorem centroid_reference_primary (ws : list R) (trace : R -> spotR) (wp : R) :
+  In wp ws ->
+  centroid1 (Z.of_nat (reference_index (O := ROps) ws wp)) (map trace ws)
+  = Some (mean_ (O := ROps) (sx (trace wp)), mean_ (O := ROps) (sy (trace wp))).
+Proof. intros H. apply centroid1_at. apply reference_index_primary. exact H. Qed.
+
+(** ... and of the first listed wavelength when the primary is not listed; in particular the query never fails
+    (no IndexError) for a non-empty list *)
+Theorem centroid_reference_first (ws : list R) (trace : R -> spotR) (wp w0 : R) (rest : list R) :
+  ws = w0 :: rest -> ~ In wp ws ->
+  centroid1 (Z.of_nat (reference_index (O := ROps) ws wp)) (map trace ws)
+  = Some (mean_ (O := ROps) (sx (trace w0)), mean_ (O := ROps) (sy (trace w0))).
+Proof.
+  intros E H. rewrite (reference_index_absent ws wp H). apply centroid1_at. rewrite E. reflexivity.
+Qed.
+
+Theorem centroid_reference_total (ws : list R) (trace : R -> spotR) (wp : R) :
+  ws <> [] -> centroid1 (Z.of_nat (reference_index (O := ROps) ws wp)) (map trace ws) <> None.
+Proof.
+  intros Hne. destruct (in_dec Req_EM_T wp ws) as [Hin|Hout].
+  - rewrite (centroid_reference_primary ws trace wp Hin). discriminate.
+  - destruct ws as [|w0 rest]; [contradiction|].
+    rewrite (centroid_reference_first (w0 :: rest) trace wp w0 rest eq_refl Hout). discriminate.
+Qed.
+
+(** an index beyond the list still fails: the lookup with the lens's own primary index was the defect *)
 Theorem centroid_index_error {W} (ws : list W) (trace : W -> spotR) (pidx : nat) :
   (length ws <= pidx)%nat -> centroid1 (Z.of_nat pidx) (map trace ws) = None.
 Proof.
@@ -71,11 +135,20 @@ Proof.
   destruct (Z.leb_spec (Z.of_nat (length ws)) (Z.of_nat pidx)); [rewrite Bool.orb_true_r; reflexivity|lia].
 Qed.
 
+(** failed rays (NaN coordinates) do not enter the centroid -- for every arithmetic instance *)
+Theorem centroid_ignores_failed_ray (O : Ops) (xa xb ya yb ia : list (T O)) (nx ny : T O) (k : Z) :
+  isnan_ nx = true -> isnan_ ny = true ->
+  M_C12.centroid1 0%Z [mkSpot (xa ++ nx :: xb) (ya ++ ny :: yb) ia] =
+  M_C12.centroid1 0%Z [mkSpot (xa ++ xb) (ya ++ yb) ia].
+Proof.
+  intros Hx Hy. unfold M_C12.centroid1. cbn [nthZ]. cbn. rewrite (nanmean_skip O xa xb nx Hx), (nanmean_skip O ya yb ny Hy). reflexivity.
+Qed.
+
 (** ** RMS and geometric radius of a spot centred on c *)
 Theorem rms_radius_spec (c : R * R) (s : spotR) :
   is_rms_radius (sx s) (sy s) c (rms1 (center1 c s)).
 Proof.
-  unfold is_rms_radius, M_C12.rms1. rewrite radii2_center. rops.
+  unfold is_rms_radius, M_C12.rms1. rewrite nanmean_R, radii2_center. rops.
   set (d := dist2 (sx s) (sy s) c).
   split; [apply sqrt_pos|].
   rewrite mean_R. unfold Rcount.
@@ -92,7 +165,7 @@ Theorem geo_radius_spec (c : R * R) (s : spotR) :
   dist2 (sx s) (sy s) c <> [] ->
   is_geo_radius (sx s) (sy s) c (geo1 (center1 c s)).
 Proof.
-  intros Hne. unfold is_geo_radius, M_C12.geo1, M_C12.radii. rewrite radii2_center.
+  intros Hne. unfold is_geo_radius, M_C12.geo1, M_C12.radii. rewrite nanmax_R, radii2_center.
   unfold lmap; rops. apply max_list_is_max.
   destruct (dist2 (sx s) (sy s) c); [contradiction|discriminate].
 Qed.
@@ -101,7 +174,7 @@ Qed.
 Corollary geo_radius_bounds (c : R * R) (s : spotR) q :
   In q (radii (center1 c s)) -> q <= geo1 (center1 c s).
 Proof.
-  intros H. unfold M_C12.geo1.
+  intros H. unfold M_C12.geo1. rewrite nanmax_R.
   apply (proj2 (max_list_is_max (radii (center1 c s)) (fun E => ltac:(rewrite E in H; contradiction)))); exact H.
 Qed.
 
@@ -194,7 +267,7 @@ Proof.
     change (last (map (ee_at s) (x :: y :: rs)) 0) with (last (map (ee_at s) (y :: rs)) 0).
     change (last (x :: y :: rs) 0) with (last (y :: rs) 0). apply IH. discriminate. }
   rewrite Hm, Hlast. apply ee_total. intros q Hq.
-  assert (Hq1 : q <= geo1 s) by (apply (proj2 (max_list_is_max (radii s) Hne)); exact Hq).
+  assert (Hq1 : q <= geo1 s) by (unfold M_C12.geo1; rewrite nanmax_R; apply (proj2 (max_list_is_max (radii s) Hne)); exact Hq).
   assert (Hq0 : 0 <= q).
   { unfold M_C12.radii, lmap in Hq. apply in_map_iff in Hq. destruct Hq as [v [<- _]]. rops. apply sqrt_pos. }
   assert (Ha : 0 <= axis_lim) by lra.
@@ -239,9 +312,9 @@ Proof. intros; split; cbn [fst snd]; apply first_moment_mean; assumption. Qed.
 (** satisfiability of the hypotheses: a three-ray spot *)
 Example spot_example :
   let s : spotR := mkSpot (O := ROps) [1; 2; 3] [0; 0; 3] [1; 1; 1] in
-  centroid1 0%Z [s] = Some (mean_ (sx s), mean_ (sy s)) /\ radii s <> [] /\
+  centroid1 0%Z [s] = Some (mean_ (O := ROps) (sx s), mean_ (O := ROps) (sy s)) /\ radii s <> [] /\
   (forall e, In e (si s) -> 0 <= e).
 Proof.
-  cbn. split; [reflexivity|]. split; [discriminate|].
+  split; [apply (centroid1_at [0] (fun _ => _) 0 0%nat eq_refl)|]. split; [discriminate|].
   intros e [<-|[<-|[<-|[]]]]; lra.
 Qed.
